@@ -85,7 +85,10 @@ const LOG_TARGET: &str = "litep2p::transport-manager";
 pub mod verif_addr {
     pub use super::{
         address::{scores, verif_log::take_evicted, AddressRecord, AddressStore},
-        handle::{verif_log::take_add_order, TransportManagerHandle},
+        handle::{
+            verif_log::{take_add_calls, take_add_order},
+            TransportManagerHandle,
+        },
         types::SupportedTransport,
         TransportManager, TransportManagerBuilder,
     };
